@@ -291,6 +291,32 @@ Section Model.
     d <- write_range (put s1) (size s1) vs (data s1) ;;
     Ok (set_data s1 d (size s1 + n), old_size).
 
+  (* insert, first case (at least n elements follow the insertion point), on
+     the block: w is "assign" for the local storage, "placement-new" otherwise *)
+  Definition insert_shift (w : cell -> V -> res cell) (pos n sz : nat) (vs : list V)
+             (blk : list cell) : res (list cell) :=
+    (* append(move_iterator(end() - n), move_iterator(end())) *)
+    '(ms, d1) <- moveout_range (sz - n) n blk ;;
+    d2 <- write_range w sz ms d1 ;;
+    (* std::move_backward(i, old_end - n, old_end) *)
+    '(bs, d3) <- moveout_range pos (sz - n - pos) d2 ;;
+    d4 <- write_range c_assign (pos + n) bs d3 ;;
+    (* std::copy(b, e, i) *)
+    write_range c_assign pos vs d4.
+
+  (* insert, second case (more elements inserted than follow the insertion
+     point); w1 writes the moved tail, w2 the non-overwritten middle part *)
+  Definition insert_over (w1 w2 : cell -> V -> res cell) (pos n sz : nat) (vs : list V)
+             (blk : list cell) : res (list cell) :=
+    let ow := sz - pos in
+    (* move [i, old_end) to the end of the enlarged vector *)
+    '(ts, d1) <- moveout_range pos ow blk ;;
+    d2 <- write_range w1 (sz + n - ow) ts d1 ;;
+    (* replace the overwritten part *)
+    d3 <- write_range c_assign pos (firstn ow vs) d2 ;;
+    (* the non-overwritten middle part *)
+    write_range w2 sz (skipn ow vs) d3.
+
   (* insert(i, b, e), range not aliasing the vector  -- repaired *)
   Definition insert (pos : nat) (vs : list V) (s : sv) : res (sv * nat) :=
     if size s <? pos then Err BadRange
@@ -302,25 +328,11 @@ Section Model.
         s1 <- reserve (size s + n) s ;;
         let sz := size s1 in
         if pos + n <=? sz then
-          (* append(move_iterator(end() - n), move_iterator(end())) *)
-          '(ms, d1) <- moveout_range (sz - n) n (data s1) ;;
-          d2 <- write_range (put s1) sz ms d1 ;;
-          (* std::move_backward(i, old_end - n, old_end) *)
-          '(bs, d3) <- moveout_range pos (sz - n - pos) d2 ;;
-          d4 <- write_range c_assign (pos + n) bs d3 ;;
-          (* std::copy(b, e, i) *)
-          d5 <- write_range c_assign pos vs d4 ;;
-          Ok (set_data s1 d5 (sz + n), pos)
+          d <- insert_shift (put s1) pos n sz vs (data s1) ;;
+          Ok (set_data s1 d (sz + n), pos)
         else
-          let ow := sz - pos in
-          (* move [i, old_end) to the end of the enlarged vector *)
-          '(ts, d1) <- moveout_range pos ow (data s1) ;;
-          d2 <- write_range (put s1) (sz + n - ow) ts d1 ;;
-          (* replace the overwritten part *)
-          d3 <- write_range c_assign pos (firstn ow vs) d2 ;;
-          (* the non-overwritten middle part *)
-          d4 <- write_range (put s1) sz (skipn ow vs) d3 ;;
-          Ok (set_data s1 d4 (sz + n), pos).
+          d <- insert_over (put s1) (put s1) pos n sz vs (data s1) ;;
+          Ok (set_data s1 d (sz + n), pos).
 
   (* resize(n)  -- repaired *)
   Definition resize (n : nat) (s : sv) : res sv :=
@@ -562,6 +574,14 @@ Section Model.
         else Invalid []
       end
     end.
+
+  (* every recorded step keeps the invariant and agrees with std::vector *)
+  Fixpoint trace_ok (ops : list op) (st : state) (tr : list (state * option nat)) : Prop :=
+    match tr, ops with
+    | [], _ => True
+    | (st', r) :: tr', o :: ops' => Inv st' /\ spec_ok o st st' r /\ trace_ok ops' st' tr'
+    | _ :: _, [] => False
+    end.
 End Model.
 
 (* =====================================================================
@@ -620,19 +640,12 @@ Section Pinned.
         '(_, d) <- moveout_range P pos (sz - pos) (data s1) ;;
         Ok (set_data s1 d sz, pos)
       else if pos + n <=? sz then
-        '(ms, d1) <- moveout_range P (sz - n) n (data s1) ;;
-        d2 <- write_range (put P s1) sz ms d1 ;;
-        '(bs, d3) <- moveout_range P pos (sz - n - pos) d2 ;;
-        d4 <- write_range c_assign (pos + n) bs d3 ;;
-        d5 <- write_range c_assign pos vs d4 ;;
-        Ok (set_data s1 d5 (sz + n), pos)
+        d <- insert_shift P (put P s1) pos n sz vs (data s1) ;;
+        Ok (set_data s1 d (sz + n), pos)
       else
-        let ow := sz - pos in
-        '(ts, d1) <- moveout_range P pos ow (data s1) ;;
-        d2 <- write_range (c_construct P) (sz + n - ow) ts d1 ;;
-        d3 <- write_range c_assign pos (firstn ow vs) d2 ;;
-        d4 <- write_range (c_construct P) sz (skipn ow vs) d3 ;;
-        Ok (set_data s1 d4 (sz + n), pos).
+        (* always placement-new, also over the live objects of the local storage *)
+        d <- insert_over P (c_construct P) (c_construct P) pos n sz vs (data s1) ;;
+        Ok (set_data s1 d (sz + n), pos).
 
   Definition resize_pinned (n : nat) (s : sv) : res sv :=
     if n <=? capacity s then
